@@ -585,7 +585,7 @@ func c19Reconstruct(po *c19PipeObs, params e2eParams, ambQueued int, stopSeq int
 // c19Kind2Output: the gathered counters in the model's format.
 func c19Kind2Output(po *c19PipeObs) string {
 	b, c := po.Buf, po.Cli
-	return fmt.Sprintf("ok:b=%d,%d,%d,%d,%d,%d,%d,%d;c=%d,%d,%d,%d,%d,%d,%d,%d;f=%d",
+	return fmt.Sprintf("ok:b=%d,%d,%d,%d,%d,%d,%d,%d;c=%d,%d,%d,%d,%d,%d,%d,%d;f=%d;ps=1",
 		b["pending_chunks"], b["input_chunks_total/transient"], b["input_chunks_total/persistent"], b["consumed_chunks_total"],
 		b["leftover_chunks_total"], b["dropped_chunks_total"], b["persistent_chunks"], b["persistent_chunk_bytes"],
 		c["forward_attempts_total"], c["forwarded_chunks_total"], c["forwarded_chunk_bytes_total"], c["acknowledged_chunks_total"],
